@@ -316,7 +316,7 @@ func newExec(t *testing.T) func([]string) string {
 			if ok, err := p256.IsNormalized(sig); err == nil {
 				n = hlib.B(ok)
 			}
-			return fmt.Sprintf("%s %s %s", n, optHex(p256.Normalize(sig)), optHex(cl.SwapSig(sig)))
+			return fmt.Sprintf("%s %s %s", n, optHex(p256.Normalize(sig)), optHex(p256.Swap(sig)))
 		}
 		return "bad-op"
 	}
